@@ -11,6 +11,15 @@ does not define, the ASN.1Cert / TBSCertificate vector has length 0 (its floor i
 leaf_type - alone and combined, on add-chain and add-pre-chain (the other entry arm included): 5xx, no SCT, nothing
 recorded as issued.  Named unasserted clause EchoVersionUnasserted: a leaf that deviates in its version octet only.
 
+Configurations (CTFEFaults!Mappers): every gRPC code, and an error that carries no gRPC status, on every endpoint with
+masking on and off under no InstanceOptions.ErrorMapper, one that declines everything, a partial one (overrides NotFound,
+Aborted, Internal; declines the rest) and a total one: an error the mapper declines is judged by the property's table
+(DeclinedFallsBack), one it maps gets exactly its word (named clause MapperOverrides).
+Proof lists (CTFEFaults!ProofLists): get-proof-by-hash replies of 1, 2, 3 proofs with ascending / descending / equal leaf
+indices and any subset of the proofs malformed (first / last node of 31, 33, 0 octets): a 200 carries 32-octet nodes only
+and is one well-formed proof of the reply, 5xx when there is none (ProofNeverMalformed); which proof is served, and
+whether a malformed proof that is not served must fail the request, is the named unasserted clause ServedProofUnasserted.
+
 Schedules (spec/ctfe/CTFETrace.tla over CTFE.tla): requests overlap.  The harness parks the backend call of one
 request inside the backend, sends further requests (mostly the same endpoint of the same front end, half of them the
 very same request), lets the tree grow, and only then lets the parked call fail (refusal or lost reply).  Every request
@@ -33,6 +42,10 @@ def run(ctx, replay=None):
         "octet (1, 255) decodes with the library's codec and the front end answers 200 with a v1 SCT over the echoed entry; "
         "the property is silent on it: executed and recorded (notes of the evidence), judged only for no crash / request "
         "log coherence; a version other than v1 together with any other deviation is asserted (5xx, no SCT)",
+        "named clause MapperOverrides / assumption MapperNeverSuccess: where a configured ErrorMapper answers (status, true) the "
+        "status is the mapper's; the mappers of the matrix answer 4xx / 5xx only (a mapper that says 2xx is not generated)",
+        "named clause ServedProofUnasserted: of a get-proof-by-hash backend reply with several proofs any well-formed one may "
+        "be served (or 5xx); the extra proofs are genuine audit paths of the backend's tree for other leaf indices",
         "reference backend; the fault matrix runs in the in-backend (direct) issuance-chain mode; the external chain "
         "storage mode (where a reply is post-processed leaf by leaf before the handler's own checks) is covered by the "
         "ChainStore.tla replay and its page matrix: a page with one leaf that cannot be fixed up, at every position and "
